@@ -62,6 +62,13 @@ func idString(sigil byte, cls string) (string, bool) {
 		return sg + b43, true // the domain-less form of room version 12
 	case "opaque43_domain":
 		return sg + b43 + ":hs1", true
+	// the nearest neighbours of the domain-less form: the standard base64 alphabet, one character short / long
+	case "opaque43_std":
+		return sg + "AbCdEfGhIjKlMnOpQrStUvWxYz0123456789+/AbCdE", true
+	case "opaque42":
+		return sg + b43[:42], true
+	case "opaque44":
+		return sg + b43 + "F", true
 	case "empty_domain":
 		return sg + "abc:", true
 	case "baddomain_space":
